@@ -190,6 +190,12 @@ def hashseed_oracle(ctx: Ctx):
 
 # whole sessions under several hash seeds: every path that writes a set (or the members of one) gives one text
 SEED_SRC = """from inline_snapshot import snapshot
+from pydantic import BaseModel, ConfigDict
+
+
+class Open(BaseModel):
+    model_config = ConfigDict(extra="allow")
+    a: int
 
 
 def test_a():
@@ -201,6 +207,15 @@ def test_a():
         assert m in snapshot({'m1', 'm2', 'zz', 'yy'})
     assert {'a', 'b', 'c'} <= snapshot({'a'})
     assert frozenset({'f1', 'f2', 'f3'}) == snapshot()['key']
+    # members without a total order (sets of strings): the kept members are listed by their code, not by their repr
+    assert frozenset({'q'}) in snapshot({frozenset({'a', 'z'}), frozenset({'m'}), frozenset({'b', 'y'}), frozenset({'k', 'c'}), frozenset({'d', 'x', 'l'})})
+    assert ('t', 0) in snapshot(frozenset({('x', None), ('x', 1), ('v', 's'), ('v', 2.5), ('w', frozenset({'a', 'z', 'm'}))}))
+
+
+def test_models():
+    # keyword arguments come from the model, in its order - never from a set
+    assert Open(a=1, zeta=1, alpha=2, mid=3, beta=4, omega=5) == snapshot()
+    assert [Open(a=2, k3=1, k1=2, k2=3)] == snapshot([0])
 """
 
 
